@@ -15,7 +15,8 @@ use adblock::request::Request;
 use serde_json::json;
 use std::collections::HashSet;
 
-const DIRECTIVES: &[&str] = &["script-src 'none'", "img-src x", "frame-src y", "worker-src 'none'", "default-src 'self' *.a.com", "script-src 'self'"];
+const DIRECTIVES: &[&str] = &["script-src 'none'", "img-src x", "frame-src y", "worker-src 'none'", "default-src 'self' *.a.com", "script-src 'self'", "sandbox", "upgrade-insecure-requests", "block-all-mixed-content",
+    "script-src 'sha256-q1w2e3=' 'sha256-r4t5y6=='", "report-uri https://r.example/c?site=1", "report-uri https://r.example/c?site=2"];
 
 fn gen_rules(r: &mut Rng, host: &str, tok: &str) -> Vec<String> {
     let frags = [
@@ -149,6 +150,20 @@ pub fn run(ctx: &mut Ctx) {
                 }
                 if got1 != got2 {
                     sigs.push("C15:csp-depends-on-rule-order-or-tag-route");
+                }
+                // independent of the crate's option parser: every directive handed out is, to the
+                // letter, a directive written in some csp rule of the list
+                if let Some(set) = &got1 {
+                    let written: Vec<&str> = rules
+                        .iter()
+                        .filter(|l| !l.starts_with("@@"))
+                        .filter_map(|l| l.rsplit_once('$').map(|x| x.1))
+                        .flat_map(|o| o.split(','))
+                        .filter_map(|o| o.strip_prefix("csp="))
+                        .collect();
+                    if set.iter().any(|d| !written.contains(&d.as_str())) {
+                        sigs.push("C15:directive-returned-that-no-rule-spells");
+                    }
                 }
                 if split_csp(&live.get_csp_directives(&rq)) != want {
                     sigs.push("C15:incrementally-built-blocker-differs-from-reference");
